@@ -3,7 +3,7 @@
    input  = L [A kind; L progs; L actions]
      kind    0 FairLock + ResourceGuard driven directly      1/2 AsyncTCPNetworkClient (asyncio.Lock / FairLock)
              3 AsyncStreamEndpoint without any lock          4/5 server-side _ConnectedClientAPI (asyncio.Lock / FairLock)
-             (the model is the same for all but 3, where no lock is taken)
+             (1 and 4: Conc.AsyncioLock is the send lock; 3: no lock; otherwise Conc.FairLock)
      progs   one program per task: L [packet; ...], packet = L [B piece; ...]
      action  L [A 0; A t] create task t        L [A 1; A t] complete t's transport suspension
              L [A 2; A t] fail t's transport suspension        L [A 3; A t] task.cancel() on t
@@ -16,7 +16,7 @@
    and setting a lock waiter's event each append the task's wake-up to the queue (once); an iteration processes the
    entries present at its beginning.  A task whose cancellation was requested gets CancelledError at its await
    whatever woke it up.  Every processed entry is ONE label of Conc.SendSerial.                                  *)
-From EN Require Import Lib.Bytes Lib.Sx Conc.FairLock Conc.Guard Conc.SendSerial.
+From EN Require Import Lib.Bytes Lib.Sx Conc.FairLock Conc.AsyncioLock Conc.Guard Conc.SendSerial.
 
 Record rs := mkRs {
   r_st : st;
@@ -29,9 +29,15 @@ Record rs := mkRs {
 
 Definition in_ready (t : tid) (r : rs) : bool := mem_tid t (r_ready r).
 
+Definition woken_tids (s : st) : list tid :=
+  match s_lk s with
+  | LNone => []
+  | LFair => map w_tid (filter w_set (fl_waiters (s_lock s)))
+  | LAsyncio => map aw_tid (filter is_woken (al_waiters (s_alock s)))
+  end.
+
 Definition enqueue_woken (s : st) (ready : list tid) : list tid :=
-  fold_left (fun rd w => if w_set w && negb (mem_tid (w_tid w) rd) then rd ++ [w_tid w] else rd)
-            (fl_waiters (s_lock s)) ready.
+  fold_left (fun rd t => if negb (mem_tid t rd) then rd ++ [t] else rd) (woken_tids s) ready.
 
 Definition label_for (t : tid) (r : rs) : option slabel :=
   match get_task t (r_st r) with
@@ -93,9 +99,12 @@ Definition act_gate (ok : bool) (t : tid) (r : rs) : rs :=
   then mkRs (r_st r) (push t r) (r_created r) (r_cancel r) (upd t (Some ok) (r_outcome r)) (r_bad r)
   else r.
 
+(* task.cancel(): the awaited future is cancelled at once when it is pending (asyncio.Lock looks at that: SFutCancel),
+   the task is scheduled and will get CancelledError *)
 Definition act_cancel (t : tid) (r : rs) : rs :=
   if nth t (r_created r) false && negb (is_done t r) && negb (nth t (r_cancel r) false)
-  then mkRs (r_st r) (push t r) (r_created r) (upd t true (r_cancel r)) (r_outcome r) (r_bad r)
+  then let s1 := match s_next (r_st r) (SFutCancel t) with Some s' => s' | None => r_st r end in
+       mkRs s1 (push t r) (r_created r) (upd t true (r_cancel r)) (r_outcome r) (r_bad r)
   else r.
 
 Definition status (n : nat) (r : rs) (ts : tstate) : Z :=
@@ -303,7 +312,8 @@ Definition run (i : sx) : sx :=
       do progs <- as_list_of as_prog pr;
       let n := length progs in
       let fuel := fold_right (fun p k => prog_size p + k) 8 progs in
-      let r0 := mkRs (st_init (negb (Z.eqb kind 3)) progs) [] (repeat false n) (repeat false n) (repeat None n) false in
+      let lk := if Z.eqb kind 3 then LNone else if (Z.eqb kind 1 || Z.eqb kind 4)%bool then LAsyncio else LFair in
+      let r0 := mkRs (st_init lk progs) [] (repeat false n) (repeat false n) (repeat None n) false in
       let '(r, snaps) := replay fuel acts r0 [] in
       if r_bad r || s_crashed (r_st r) then bad_input
       else L [L snaps; B (s_wire (r_st r))]
